@@ -24,6 +24,23 @@ Proof. exact cev_hom. Qed.
 Theorem C07_complex_constants : cev ki = Ci /\ cev krsqrt2 = RtoC (1 / sqrt 2).
 Proof. split; [exact cev_ki | exact cev_krsqrt2]. Qed.
 
+(* the complex images of the gate matrices are the textbook matrices: rotations
+   exp(-i theta/2 sigma) with theta/2 = k pi/32 for every k, and the fixed gates *)
+Theorem C07_rot_image_in_C : forall a k, cmev (rot_k a k) = Crot a (INR k * (PI / 32))%R.
+Proof. exact cmev_rot_k. Qed.
+
+Theorem C07_gate_images_in_C :
+  cmev gX = [[C0; C1]; [C1; C0]] /\
+  cmev gY = [[C0; Copp Ci]; [Ci; C0]] /\
+  cmev gZ = [[C1; C0]; [C0; Copp C1]] /\
+  cmev gH = [[Ch; Ch]; [Ch; Copp Ch]] /\
+  cmev gK = [[Ch; Cmult (Copp Ci) Ch]; [Cmult Ci Ch; Copp Ch]] /\
+  cmev gS = [[C1; C0]; [C0; Ci]] /\
+  cmev gT = [[C1; C0]; [C0; (cos (PI / 4), sin (PI / 4))]] /\
+  cmev gCNOT = [[C1;C0;C0;C0]; [C0;C1;C0;C0]; [C0;C0;C0;C1]; [C0;C0;C1;C0]] /\
+  cmev gCPHASE = [[C1;C0;C0;C0]; [C0;C1;C0;C0]; [C0;C0;C1;C0]; [C0;C0;C0;Copp C1]].
+Proof. exact cmev_fixed. Qed.
+
 (* every non-MOV row: the circuit computed over C from the complex images of the NV
    gate matrices equals e^{i p pi/32} times the complex image of the vanilla gate *)
 Theorem C07_decomp_in_C : forall r, In r gen_rows -> r_gate r <> VMov -> row_in_C r.
@@ -42,5 +59,7 @@ Qed.
 
 Print Assumptions C07_complex_hom.
 Print Assumptions C07_complex_constants.
+Print Assumptions C07_rot_image_in_C.
+Print Assumptions C07_gate_images_in_C.
 Print Assumptions C07_decomp_in_C.
 Print Assumptions C07_mov_in_C.
